@@ -32,7 +32,7 @@ ASSUME = c04.ASSUME + ["L-max: the maximum over a group is >= every member (libr
                        "division by the scale is only reasoned about where the scale is proved positive"]
 
 
-def scenario_for(alpha_kind, shape, scale_axis=None, bounds_po2=False):
+def scenario_for(alpha_kind, shape, scale_axis=None, bounds_po2=False, eps=None):
   def scenario(ip):
     s = Scen()
     ip.aggs = []
@@ -43,6 +43,8 @@ def scenario_for(alpha_kind, shape, scale_axis=None, bounds_po2=False):
     kw = {"alpha": "auto_po2" if alpha_kind == "frozen" else alpha_kind}
     if scale_axis is not None:
       kw["scale_axis"] = scale_axis
+    if eps is not None:
+      kw["elements_per_scale"] = eps
     lo = hi = None
     if bounds_po2:
       if bounds_po2 in (True, "both", "min"):
@@ -68,7 +70,7 @@ def scenario_for(alpha_kind, shape, scale_axis=None, bounds_po2=False):
     x = Q.tensor("x", shape=shape)
     xe = x.e
     s.vars["x"] = xe
-    s.replay = {"class": "quantized_bits", "kwargs": {"alpha": kw["alpha"], "scale_axis": scale_axis},
+    s.replay = {"class": "quantized_bits", "kwargs": {"alpha": kw["alpha"], "scale_axis": scale_axis, "elements_per_scale": eps},
                 "shape": list(shape), "bounds_po2": bounds_po2, "frozen": alpha_kind == "frozen"}
     if alpha_kind in ("auto", "auto_po2") and not bounds_po2 and len(shape) > 1:
       # IEEE non-finite values are outside the real-arithmetic VCs: bounded native probe (never counted as proved)
@@ -129,7 +131,16 @@ def scenario_for(alpha_kind, shape, scale_axis=None, bounds_po2=False):
     if alpha_kind != "frozen":
       axes = c04.expected_axes(rank, scale_axis) if rank > 1 else (0,)
       reds = [k for kind, _, _, k in ip.aggs if kind in ("K.mean", "K.max")]
-      s.claim("scale_group", bool(reds) and all(k[2] == axes for k in reds))
+      if eps is None:
+        s.claim("scale_group", bool(reds) and all(k[2] == axes for k in reds))
+      else:
+        # elements_per_scale: the least-squares refinement works per block of eps consecutive elements along scale_axis
+        # (C04.expected_group); the max-based start value stays per channel
+        view, vaxes = c04.expected_group(shape, scale_axis, eps)
+        means = [k for k in reds if k[0] == "K.mean"]
+        maxes = [k for k in reds if k[0] == "K.max"]
+        s.claim("scale_group", bool(means) and all(k[2] == vaxes and tuple(k[1]) == view for k in means) and
+                all(k[2] == axes for k in maxes))
     # ---- form: the code magnitude is the value the program's last tf.where produced (an integer, clipped to L)
     # value of one code, formed the way the program forms it (scale * m_i / m with power-of-two factors merged by
     # the interpreter's scale normalisation); unit_identity ties it to q.scale * step
@@ -277,6 +288,8 @@ def cases(tier):
     for shape in ((5,), (3, 4), (2, 2, 3, 4)):
       out.append(Case(PROP, T, "alpha-%s_rank%d" % (ak, len(shape)), scenario_for(ak, shape), bounds=bounds,
                       replay_kind="c05", assumptions=ASSUME, timeout_ms=20000, lo=-40, hi=40))
+  out.append(Case(PROP, T, "alpha-auto_po2_eps2_scale_axis1_rank2", scenario_for("auto_po2", (3, 4), scale_axis=1, eps=2),
+                  bounds=bounds, replay_kind="c05", assumptions=ASSUME, timeout_ms=20000, lo=-40, hi=40))
   out.append(Case(PROP, T, "alpha-auto_scale_axis0_rank2", scenario_for("auto", (3, 4), scale_axis=0), bounds=bounds,
                   replay_kind="c05", assumptions=ASSUME, timeout_ms=20000))
   for bk in ("both", "min", "max"):
